@@ -394,9 +394,13 @@ impl Scenario for CacheBankHistory {
                         // F: cold cache before every step
                         reps[1].flush_cache();
                         let mut results: Vec<Result<(), String>> = Vec::new();
+                        reps[2].trace_start();
                         for m in reps.iter_mut() {
                             results.push(step(m.as_mut()));
                         }
+                        // bank-register writes performed by the interpreter replica during this step (a stack that has wandered into
+                        // 0x2000-0x7FFF makes every push one)
+                        let bank_writes = reps[2].trace_take().iter().filter(|e| e.0 == 1 && e.1 >= 0x2000 && e.1 < 0x8000).count();
                         let _ = crate::capture::take();
                         let n_panicked = results.iter().filter(|r| r.is_err()).count();
                         if n_panicked == 3 {
@@ -406,7 +410,7 @@ impl Scenario for CacheBankHistory {
                             break 'ops;
                         }
                         // a block in the switchable window that remapped the bank it was running from (known-finding class)
-                        let self_switch = running && pc >= 0x4000 && reps[2].rom_bank() != pre_bank;
+                        let self_switch = running && pc >= 0x4000 && case.get("cart_type") != 0 && (reps[2].rom_bank() != pre_bank || bank_writes >= 2);
                         if self_switch {
                             ctx.cov.hit("probe.block_remapped_its_own_bank");
                         }
